@@ -28,8 +28,11 @@ from checks import sched_common as sc
 LEVEL = "model_checking"
 
 N = {
-    "quick": dict(beh=60, beh_depth=8, rich=70, c07_explore=20, sched={"basic": 260, "interpod": 90, "reserved": 90}, grid=6, procs=4, par=4),
-    "thorough": dict(beh=3000, beh_depth=12, rich=6000, c07_explore=1200, sched={"basic": 10000, "interpod": 3000, "reserved": 3000}, grid=150, procs=8, par=8),
+    # disruption scenarios run under all 4 option combinations (preference policy x minValues policy), sched scenarios under both
+    # preference policies (the rest cycling) and the full grid on `grid` of them
+    "quick": dict(beh=30, beh_depth=8, rich=36, c07_explore=8, sched={"basic": 150, "interpod": 50, "reserved": 50}, grid=6, procs=4, par=4),
+    # (thorough keeps ~2.5 GB of traces in .work while it runs: a Snapshot line is 7-10 kB)
+    "thorough": dict(beh=400, beh_depth=12, rich=800, c07_explore=150, sched={"basic": 2500, "interpod": 800, "reserved": 800}, grid=60, procs=8, par=8),
 }
 WEAKENINGS = ["liveNode", "sortInPlace", "nominateInSim", "relaxHeld", "passBooksUsage", "simWrites"]
 
@@ -88,16 +91,28 @@ def disruption_scenarios(run, rng, t):
     for s in ex:
         s["name"] = "c07" + s["name"]
     scen += ex
+    scen = [v for s in scen for v in fc.option_grid(s)]
     return scen, len(behs)
 
 
 def sched_scenarios(run, rng, t):
-    out = []
+    base = []
     for prof, n in t["sched"].items():
-        out += [sc.explore(rng, prof, "f-%s-%d-%d" % (prof, run.seed, i)) for i in range(n)]
-    # every option variant (both preference policies x both minValues policies x 1/2/8 workers) on a common subset
-    for s in out[:t["grid"]]:
-        out += [sc.with_options(s, o, "g%d" % j) for j, o in enumerate(sc.OPTION_GRID)]
+        base += [(prof, sc.explore(rng, prof, "f-%s-%d-%d" % (prof, run.seed, i))) for i in range(n)]
+    out = []
+    # every scenario under BOTH preference policies; minValues policy, worker count and (reserved profile) strict / fallback cycle
+    for i, (prof, s) in enumerate(base):
+        for j, pr in enumerate(("Respect", "Ignore")):
+            o = {"preference": pr, "minValues": ("Strict", "BestEffort")[(i + j) % 2], "workers": (1, 2, 8)[(i // 2 + j) % 3]}
+            if prof == "reserved":
+                o["reserved"] = ("strict", "fallback")[(i // 3 + j) % 2]
+            out.append(sc.with_options(s, o, pr))
+    # the full grid (preference x minValues x workers, x strict / fallback for the reserved profile) on a common subset
+    step = max(1, len(base) // t["grid"])
+    for prof, s in base[::step][:t["grid"]]:
+        for j, o in enumerate(sc.OPTION_GRID):
+            for r in (("strict", "fallback") if prof == "reserved" else ("strict",)):
+                out.append(sc.with_options(s, dict(o, reserved=r), "g%d%s" % (j, r[0])))
     wdir = os.path.join(vlib.ROOT, "checks", "witness")
     for f in sorted(os.listdir(wdir)):
         if f.startswith("C01-") and f.endswith(".json"):
@@ -296,6 +311,8 @@ def check(run):
     tamper_selftest(run, dfiles)
     projection_selftest(run, rng)
     run.extra_cov.update({
+        "option_combinations": {"disruption": "all scenarios x {Respect,Ignore} x {Strict,BestEffort}",
+                                "sched": "all scenarios x {Respect,Ignore} (minValues / workers / reserved strict-fallback cycling) + full grid on a subset"},
         "frame_behaviours_from_tlc": nbeh, "disruption_scenarios": len(dscen), "sched_scenarios": len(sscen),
         "judged_brackets_by_call": judged, "direct_simulations": sims, "simulations_cancelled_or_timed_out_or_rejected": sim_errs,
         "commands": cmds, "pods_placed_on_existing_nodes_in_brackets": placed_existing, "pods_placed_on_new_claims_in_brackets": placed_new,
@@ -313,6 +330,19 @@ def check(run):
         "quotiented out: in-memory representation of time.Time / resource.Quantity, lock state, the order of a pod's preferred "
         "node-affinity terms (a set in Kubernetes; Karpenter sorts that slice in place on the candidates' pod copies), the order of the "
         "candidate slice a method receives; memoised allocatable groups of an instance type are forced before every snapshot",
+        "every disruption scenario runs under all 4 combinations preference policy {Respect, Ignore} x minValues policy {Strict, BestEffort}; every "
+        "scheduling scenario under both preference policies (minValues policy, 1/2/8 workers, reserved strict/fallback cycling) and a subset under the "
+        "full grid; the pods carry content the scheduler really relaxes (required OR-terms whose first term cannot be met, unsatisfiable preferred "
+        "terms, preferred pod (anti-)affinity, ScheduleAnyway spreads, PreferNoSchedule pool taints), and the long-lived pod objects - the candidates' "
+        "pods and the CapacityBuffer virtual pods of the provisioner's shared cache - are sections of the snapshot (x:candidatePods, x:virtualPods); "
+        "pending pods of a pass are listed afresh from the API by the pass itself, so nothing outlives it",
+        "HEAD behaviours examined and found representation-level (quotiented, not violations): (1) Topology.newForTopologies appends the "
+        "matchLabelKeys expressions to the caller's pod LabelSelector in place on every Update - the selector of a candidate's / cached virtual pod "
+        "grows by one duplicate 'key In [value]' per simulation (reproduced: 0,1,2,3 expressions over three simulations); the expressions are "
+        "implied by matchLabelKeys, selection is unchanged, the objects are Karpenter's private copies; (2) isDaemonPodCompatible relaxes the daemon "
+        "pod it is handed, which is a per-scheduler copy (Cluster.GetDaemonSetPod deep-copies; the mutation that removes that copy is caught as "
+        "cache:daemonSetPods); (3) resources.Subtract mutates lhs only for inf.Dec-backed quantities (beyond int64 scale, e.g. an extended resource "
+        "> 9.2e18); inside a bracket lhs is a deep copy or the memoised (pre-forced) allocatable computation, and the scenarios' quantities are int64-backed",
         "not judged because the statement does not list it: pod bookkeeping and the consolidation timestamp during a SIMULATION "
         "(GetPendingPods records a decision for invalid pending pods; ConsolidationState() refreshes its timestamp every 5 min), events published "
         "to the recorder, metrics, the provisioner's own change monitor; a controller round (Controller.Reconcile) is not bracketed because it ends in the real mutation",
